@@ -258,11 +258,13 @@ def family(tier, seed):
     for r in runs:
         if r["reservoir"] == "single" and r["ratio"] in (0.9875, 0.999) and r["grid"]["kind"] == "big50" and r["schedule"]["kind"] == "constant":
             must.append(r)  # 4 tables x 2 ratios x 5 node counts = 40 runs
+        elif r["reservoir"] == "single" and r["ratio"] == 0.5 and r["grid"]["kind"] == "random" and r["schedule"]["kind"] == "constant" and r["nx"] in (10, 30, 100):
+            must.append(r)  # 12 runs: time-monotonicity on strongly non-uniform grids is always exercised
         else:
             rest.append(r)
     ideal = [r for r in rest if r["reservoir"] == "ideal"]
     single = [r for r in rest if r["reservoir"] == "single"]
-    pick = rng.sample(single, 56) + rng.sample(ideal, 8)
+    pick = rng.sample(single, 44) + rng.sample(ideal, 8)
     return must + pick
 
 
@@ -275,7 +277,7 @@ def run(ctx):
     runs = family(ctx.tier, ctx.seed)
     B = Bounded("real simulate() runs: tables {gas, Haynesville, synthetic rising, synthetic kinked} + ideal; p_f/p_i in %s; nx in %s; grids %s; schedules %s; %s; "
                 "%s, steady %g" % (list(RATIOS), list(NXS), list(GRIDS), list(SCHEDULES),
-                                                             "seeded sub-sample of %d runs incl. every (table, nx) at p_f/p_i in {0.9875, 0.999} on the 20x50 grid" % len(runs) if quick
+                                                             "seeded sub-sample of %d runs incl. every (table, nx) at p_f/p_i in {0.9875, 0.999} on the 20x50 grid and 12 constant-schedule runs on seeded random grids" % len(runs) if quick
                                                              else "full product, %d runs" % len(runs), TOL_TEXT, STEADY_TOL))
     records = []
     for inp in runs:
